@@ -1,3 +1,3 @@
 SPECIFICATION Spec
-INVARIANTS TypeOK Inv_C15_RoundTrip Inv_C15_RoundTripRaw Inv_C15_Detect Inv_C15_GzipNeverWrong Inv_C15_Total Emit
+INVARIANTS TypeOK Inv_C15_RoundTrip Inv_C15_RoundTripRaw Inv_C15_LossySameSize Inv_C15_ObjectRoundTrip Inv_C15_RepoDetected Inv_C15_IndexUndetected Inv_C15_Detect Inv_C15_GzipNeverWrong Inv_C15_Total Emit
 CHECK_DEADLOCK FALSE
